@@ -429,7 +429,12 @@ class State:
             tr = dom_of_type(sv[1])
             if inner.lo >= tr.lo and inner.hi <= tr.hi:
                 return inner
-            # truncation of a wider value: low bits only
+            # reinterpretation / truncation: exact when the whole interval wraps by the same multiple of the width
+            if tr.lo != -INF and tr.hi != INF and inner.lo != -INF and inner.hi != INF:
+                width = tr.hi - tr.lo + 1
+                q1, q2 = (inner.lo - tr.lo) // width, (inner.hi - tr.lo) // width
+                if q1 == q2:
+                    return Dom(inner.lo - q1 * width, inner.hi - q1 * width)
             return tr
         if h == "bin":
             op, ty, a, b = sv[1], sv[2], sv[3], sv[4]
@@ -438,10 +443,21 @@ class State:
             m = math_interval(op.rstrip("W"), da, db)
             if m is None:
                 return tr
+            if op in ("Sub", "SubW") and depth < 3:
+                # the difference of two values related by a difference constraint
+                hi, lo = self.diff_hi(a, b), self.diff_hi(b, a)
+                m = Dom(max(m.lo, -lo) if lo is not None else m.lo, min(m.hi, hi) if hi is not None else m.hi)
+                if m.lo > m.hi:
+                    return tr
             if op.endswith("W"):
-                # wrapping: exact only if the mathematical result fits
+                # wrapping: exact if the mathematical result fits, or lies entirely one wrap away
                 if m.lo >= tr.lo and m.hi <= tr.hi:
                     return m
+                if tr.lo != -INF and tr.hi != INF and m.lo != -INF and m.hi != INF:
+                    width = tr.hi - tr.lo + 1
+                    q1, q2 = (m.lo - tr.lo) // width, (m.hi - tr.lo) // width
+                    if q1 == q2:
+                        return Dom(m.lo - q1 * width, m.hi - q1 * width)
                 return tr
             return m.meet(tr)
         if h in ("min", "max"):
@@ -592,6 +608,16 @@ class State:
         back = self.zone.get((b, a))
         if back is not None and back + self.zone[(a, b)] < 0:
             self.dead = True
+
+    def diff_hi(self, a, b):
+        """smallest known k with a - b <= k from the recorded difference constraints (None if there is none)"""
+        (ba, oa), (bb, ob) = self.norm(a), self.norm(b)
+        if ba is None or bb is None:
+            return None
+        if ba == bb:
+            return oa - ob
+        z = self.zone.get((ba, bb))
+        return None if z is None else z + oa - ob
 
     def prove_le(self, a, b, k):
         """is a - b <= k implied?"""
